@@ -324,7 +324,8 @@ func (x *Exec) applyContract(st *State, con *Contract, cname string, pnames []st
 	}
 	nowBefore := st.now
 	x.applyHavoc(st, ts, nowBefore, nil)
-	x.escapeHavoc(st, append(append([]Val(nil), args...), x.pendingEsc...), ts)
+	x.escapeHavoc(st, args, ts, false)
+	x.escapeHavoc(st, x.pendingEsc, ts, true)
 	x.pendingEsc = nil
 	n := x.fresh("now", SInt)
 	st.assume(app(">=", n, st.now))
@@ -656,7 +657,7 @@ func storedFreeVars(fn *ssa.Function, seen map[*ssa.Function]bool) map[int]bool 
 // havocked here, at the call site. Any other (non-ghost, non-cell) array the closure's own contract
 // lists in its modifies clause and that the callee does not already havoc as a whole is havocked as
 // a whole (coarse, sound).
-func (x *Exec) escapeHavoc(st *State, args []Val, calleeTs []target) {
+func (x *Exec) escapeHavoc(st *State, args []Val, calleeTs []target, direct bool) {
 	for _, a := range args {
 		if a.K != VClosure || a.Fn == nil {
 			continue
@@ -695,8 +696,15 @@ func (x *Exec) escapeHavoc(st *State, args []Val, calleeTs []target) {
 			st.setH(name, es, store(st.H(name, es), ptr.T, nv.T))
 		}
 		con := x.v.cf.Funcs[calleeName(a.Fn)]
-		if con == nil {
+		if con == nil || direct {
+			// (a closure that is called directly is the callee: its own modifies clause has just been applied)
 			continue
+		}
+		captured := map[string]bool{}
+		for _, b := range a.Bind {
+			if b.K == VTerm {
+				captured[b.T] = true
+			}
 		}
 		whole := map[string]bool{}
 		for _, t := range calleeTs {
@@ -704,24 +712,33 @@ func (x *Exec) escapeHavoc(st *State, args []Val, calleeTs []target) {
 				whole[t.array] = true
 			}
 		}
-		for _, s := range con.Modifies {
-			s = strings.TrimSpace(s)
-			if strings.HasPrefix(s, "ghost ") || s == "alloc" || s == "nothing" {
+		// every other (non-ghost, non-cell) array the closure's contract lets it modify -- as a whole or at
+		// some location -- and that the callee does not already havoc as a whole, is havocked as a whole
+		vars := map[string]Val{}
+		for k, fv := range a.Fn.FreeVars {
+			if k < len(a.Bind) {
+				vars[fv.Name()] = a.Bind[k]
+			}
+		}
+		for _, p := range a.Fn.Params {
+			vars[p.Name()] = x.symbolic(st, p.Type(), "escp")
+		}
+		cenv := &Env{x: x, st: st, old: nil, vars: vars, entry: st.entry}
+		cts, err := cenv.evalTargets(con.Modifies)
+		if err != nil {
+			st.tainted = "modifies clause of " + calleeName(a.Fn) + " cannot be evaluated where the closure is handed over: " + err.Error()
+			continue
+		}
+		done := map[string]bool{}
+		for _, t := range cts {
+			if t.ghost || strings.HasPrefix(t.array, "cell.") || whole[t.array] || done[t.array] {
 				continue
 			}
-			s = strings.TrimPrefix(s, "new ")
-			arr, es := x.arrayByName(strings.TrimSpace(s))
-			if arr == "" {
-				// a location-specific target (x.f, content(..)): the array is the declared field's
-				if i := strings.LastIndex(s, "."); i >= 0 {
-					continue // covered by the callee's function-type contract (checked by `govc corr`)
-				}
-				continue
+			if t.fresh || (t.ref != "" && captured[t.ref]) {
+				continue // objects the closure allocates itself; fields of a captured struct variable (havocked above)
 			}
-			if strings.HasPrefix(arr, "cell.") || whole[arr] {
-				continue
-			}
-			st.havocH(arr, es)
+			done[t.array] = true
+			st.havocH(t.array, t.esort)
 		}
 	}
 }
